@@ -670,20 +670,42 @@ def _alarm(signum, frame):
     raise ReTimeout()
 
 
+def _quiet_unraisable(hook):
+    def filtered(unraisable):
+        # a tick that lands inside a GC callback / destructor cannot propagate; the next tick will
+        if unraisable.exc_type is ReTimeout:
+            return
+        hook(unraisable)
+    filtered._vpbt = True
+    return filtered
+
+
 def guarded_call(limit, fn, *args, **kwargs):
-    """fn(*args) under a CPU-time alarm (main thread only; elsewhere unguarded)."""
+    """fn(*args, **kwargs) under a CPU-time alarm (main thread only; elsewhere unguarded).
+
+    The timer repeats every 20 ms after the limit, so a tick swallowed inside a GC callback or destructor
+    is followed by another one; the timer is disarmed before the handler is restored.
+    """
     import signal
+    import sys
     import threading
 
     if threading.current_thread() is not threading.main_thread():
         return fn(*args, **kwargs)
+    if not getattr(sys.unraisablehook, "_vpbt", False):
+        sys.unraisablehook = _quiet_unraisable(sys.unraisablehook)
     old = signal.signal(signal.SIGVTALRM, _alarm)
     try:
-        signal.setitimer(signal.ITIMER_VIRTUAL, limit)
         try:
+            signal.setitimer(signal.ITIMER_VIRTUAL, limit, 0.02)
             return fn(*args, **kwargs)
         finally:
-            signal.setitimer(signal.ITIMER_VIRTUAL, 0)
+            while True:
+                try:
+                    signal.setitimer(signal.ITIMER_VIRTUAL, 0)
+                    break
+                except ReTimeout:
+                    continue
     finally:
         signal.signal(signal.SIGVTALRM, old)
 
